@@ -16,7 +16,7 @@ TIERS = {
 FAULT_KINDS = ["clock jump", "raising event callback", "invalid frames interleaved"]
 REAL, STUBS, ASSUMPTIONS = netcheck.REAL, netcheck.STUBS, netcheck.ASSUMPTIONS
 REQUIRED_PROBES = ["accepted_lines", "controller_sets_sent", "ids_handed_out"]
-WEIGHTS = {"req": 14, "config": 5, "time": 6, "idreq": 5, "gwready": 3, "unknown_traffic": 8, "ctl_set": 16, "value": 14,
+WEIGHTS = {"req": 14, "config": 5, "time": 6, "idreq": 5, "gwready": 3, "unknown_traffic": 8, "ctl_set": 16, "ctl_setpair": 2, "value": 14,
            "present_child": 12, "heartbeat": 7, "presleep": 7, "clockjump": 2, "metric": 2, "discover_resp": 2, "internal_other": 4, "stream_bad": 0}
 FLAVOURS = ["serial", "tcp", "aserial", "atcp", "mqtt", "amqtt"]
 REPLY_KINDS = {"req", "config", "time", "id-request", "gateway-ready", "set-unknown", "req-unknown", "child-presentation",
